@@ -137,6 +137,24 @@ func (fr *frame) raceNoteCells(T types.Type, addr *value, write bool, what strin
 	fr.raceNote(addr, write, what)
 }
 
+// raceNoteUntyped records an access to the cell and, if it holds an aggregate stored inline, to all its leaves.
+func (fr *frame) raceNoteUntyped(addr *value, write bool, what string) {
+	switch x := (*addr).(type) {
+	case structure:
+		for i := range x {
+			fr.raceNoteUntyped(&x[i], write, what)
+		}
+		fr.raceNote(addr, write, what)
+	case array:
+		for i := range x {
+			fr.raceNoteUntyped(&x[i], write, what)
+		}
+		fr.raceNote(addr, write, what)
+	default:
+		fr.raceNote(addr, write, what)
+	}
+}
+
 // describeAddr names the location an address operand denotes (field of a struct type, element, global).
 func describeAddr(v ssa.Value) string {
 	switch a := v.(type) {
